@@ -40,14 +40,19 @@ def data_for(lst):
 
 # ---- strategy ------------------------------------------------------------------------------------------------
 def _history():
-    nm = st.lists(st.sampled_from(ALPHA), min_size=0, max_size=3)
+    nm = st.lists(st.sampled_from(ALPHA[:2]), min_size=0, max_size=2)
     express = st.fixed_dictionaries({
         'op': st.just('express'), 'name': nm, 'cbp': st.booleans(),
         'digest': st.sampled_from(['none', 'none', 'none', 'right', 'wrong']),
         'life': st.sampled_from(LIFETIMES),
         'vlat': st.sampled_from(['0', '0', '1ms', 'life-1', 'life', 'life+20']),
         'verdict': st.sampled_from([True, True, False])})
-    data = st.fixed_dictionaries({'op': st.just('data'), 'name': nm, 'mode': st.sampled_from(['await', 'task'])})
+    data = st.one_of(
+        st.fixed_dictionaries({'op': st.just('data'), 'name': nm, 'mode': st.sampled_from(['await', 'task'])}),
+        st.fixed_dictionaries({'op': st.just('data'), 'of': st.integers(0, 7), 'ext': st.lists(st.sampled_from(ALPHA[:2]), max_size=1),
+                               'mode': st.sampled_from(['await', 'task'])}),
+        st.fixed_dictionaries({'op': st.just('data'), 'of': st.integers(0, 7), 'ext': st.just([]),
+                               'mode': st.sampled_from(['await', 'task'])}))
     nack = st.fixed_dictionaries({'op': st.just('nack'), 'i': st.integers(0, 7), 'reason': st.sampled_from([0, 50, 100, 150]),
                                   'mode': st.sampled_from(['await', 'task'])})
     adv = st.one_of(
@@ -55,9 +60,9 @@ def _history():
         st.fixed_dictionaries({'op': st.just('adv_to'), 'i': st.integers(0, 7), 'delta': st.sampled_from([-1, 0, 1]),
                                'what': st.sampled_from(['deadline', 'validator'])}))
     cancel = st.fixed_dictionaries({'op': st.just('cancel'), 'i': st.integers(0, 7)})
-    shutdown = st.just({'op': 'shutdown'})
-    op = st.one_of(express, express, express, data, data, nack, adv, adv, cancel, shutdown)
-    return st.lists(op, min_size=1, max_size=24)
+    op = st.one_of(express, express, data, data, data, nack, adv, adv, adv, cancel)
+    return st.tuples(st.lists(express, min_size=1, max_size=4), st.lists(op, min_size=2, max_size=20),
+                     st.sampled_from([[], [], [], [{'op': 'shutdown'}]])).map(lambda t: t[0] + t[1] + t[2])
 
 
 def _case(frontend):
@@ -124,7 +129,13 @@ def _run(sim, fe, ops, r):
             events.append((h.t0_ms, 'express', len(ents) - 1))
             trace.append('E')
         elif k == 'data':
-            lst = op['name']
+            if 'of' in op:
+                if not ents:
+                    continue
+                lst = ents[op['of'] % len(ents)]['name'] + op['ext']
+            else:
+                lst = op['name']
+            op = dict(op, name=lst)
             if not lst or not alive:
                 continue
             w = data_for(lst)
